@@ -1,6 +1,8 @@
 """C05 — proximal operators return the exact minimiser of their penalised problem.
 
-L1: Props/C05.v (group-lasso closed form + strong-convexity gap, HIER-PROX feasibility + optimality, group wrappers).
+L1: Props/C05.v (group-lasso closed form + strong-convexity gap, HIER-PROX feasibility + optimality, group wrappers) and
+    Props/C05gen.v: the same theorems on Gen/ProxGen.v, regenerated from gemclus/sparse/_prox_grad.py by translator/tr_prox.py on
+    every build and proved equal to Model/Prox.v for every number system (Proofs/ProxTie.v).
 L2: extracted model (float instance) vs gemclus.sparse._prox_grad.{linear,group_linear,mlp,group_mlp}_prox_grad.
 L3: independent oracles on the implementation's output: closed form + strong-convexity gap against random
     competitors for the group lasso; for the hierarchical operator direct feasibility, exact one-dimensional
@@ -492,7 +494,7 @@ STREAMS = {"rows": (stream_rows, 700, 12000), "group_exh": (stream_group_exh, 37
 
 
 def main():
-    chk = Check("C05")
+    chk = Check("C05", props_files=["Props/C05.v", "Props/C05gen.v"])
     chk.build()
     chk.proofs()
     if PG is None:
